@@ -131,6 +131,7 @@ class Normalizer:
                 if r.is_const():
                     return l.scale(r.const)
         if isinstance(e, ast.Attribute):
+            e = self._rebase(e, env)
             s = ast.unparse(e)
             if s in ('self._env.now', 'self.env.now', 'self.now', 'self._now'):
                 return Lin({'NOW': 1})
@@ -158,6 +159,34 @@ class Normalizer:
                         return self.norm(body[0].value, inner, depth + 1)
             return Lin({self.atom(e, env, depth): 1})
         return Lin({self.atom(e, env, depth): 1})
+
+    def _rebase(self, e, env):
+        """`loc.attr...` where the local `loc` is an alias of a context-free `self.<chain>` expression (e.g. `env = self._env`)
+        is rewritten to `self.<chain>.attr...`"""
+        chain = []
+        b = e
+        while isinstance(b, ast.Attribute):
+            chain.append(b.attr)
+            b = b.value
+        if not (isinstance(b, ast.Name) and b.id != 'self'):
+            return e
+        r = None
+        if isinstance(env, FrameEnv):
+            hit = env.resolve(b.id)
+            r = hit[0] if hit is not None else None
+        elif env and b.id in env:
+            r = env[b.id]
+        if r is None:
+            return e
+        t = r
+        while isinstance(t, ast.Attribute):
+            t = t.value
+        if not (isinstance(t, ast.Name) and t.id == 'self' and isinstance(r, ast.Attribute)):
+            return e
+        out = r
+        for a in reversed(chain):
+            out = ast.Attribute(value=out, attr=a, ctx=ast.Load())
+        return out
 
     def atom(self, e, env, depth):
         if isinstance(e, ast.Call):
@@ -266,3 +295,18 @@ def cmp_key(N, test, env=None, truth=True):
     if r is None:
         return None
     return f'{r[0].key()} {r[1]} 0'
+
+
+def cmp_polarity(N, test, env, terms, op, const=0):
+    """+1 if `test` is equivalent to  sum(terms) + const  op  0 ; -1 if it is equivalent to its negation; None otherwise.
+    op in {'<', '<=', '==', '!='}"""
+    for truth, pol in ((True, 1), (False, -1)):
+        r = cmp_norm(N, test, env, truth)
+        if r is None:
+            return None
+        lin, o = r
+        if o == op and lin.is_(terms, const):
+            return pol
+        if op in ('==', '!=') and o == op and lin.scale(-1).is_(terms, const):
+            return pol
+    return None
